@@ -978,14 +978,28 @@ Proof.
     inversion H; subst. cbn. f_equal. apply IH. reflexivity.
 Qed.
 
+Lemma configure_some tasks ps :
+  configure tasks = Some ps ->
+  exists bm, env_bindmap tasks = Some bm /\ existsb (cross_ipc tasks bm) tasks = false /\
+             all_props bm tasks = Some ps.
+Proof.
+  unfold configure. destruct (env_bindmap tasks) as [bm|]; [|discriminate].
+  destruct (existsb (cross_ipc tasks bm) tasks) eqn:X; [discriminate|].
+  intro H. exists bm. repeat split; assumption.
+Qed.
+
+Lemma configure_props_none tasks bm :
+  env_bindmap tasks = Some bm -> all_props bm tasks = None -> configure tasks = None.
+Proof. intros B H. unfold configure. rewrite B, H. destruct (existsb (cross_ipc tasks bm) tasks); reflexivity. Qed.
+
 (* what a successful configuration gives for one task *)
 Lemma configure_task tasks ps j t pr :
   configure tasks = Some ps -> nth_error tasks j = Some t -> nth_error ps j = Some pr ->
   exists bm, env_bindmap tasks = Some bm /\ task_props bm t = Some pr.
 Proof.
-  intros H Ht Hp. unfold configure in H. destruct (env_bindmap tasks) as [bm|]; [|discriminate].
-  exists bm. split; [reflexivity|].
-  destruct (all_props_nth _ _ _ _ _ H Ht) as (pr' & E & P). congruence.
+  intros H Ht Hp. destruct (configure_some _ _ H) as (bm & B & _ & AP).
+  exists bm. split; [exact B|].
+  destruct (all_props_nth _ _ _ _ _ AP Ht) as (pr' & E & P). congruence.
 Qed.
 
 (* an outbound channel of a configured task is told what Outbound.ToFMQMap answers on the
@@ -1369,7 +1383,7 @@ Proof.
   destruct (configure tasks) as [ps|] eqn:H; [|reflexivity]. exfalso.
   destruct (In_nth_error _ _ Hc) as (i & Hi).
   assert (L : length ps = length tasks).
-  { unfold configure in H. destruct (env_bindmap tasks); [|discriminate]. apply (all_props_length _ _ _ H). }
+  { destruct (configure_some _ _ H) as (bm0 & _ & _ & AP0). apply (all_props_length _ _ _ AP0). }
   destruct (nth_error ps jt) as [pr|] eqn:Hpr.
   - destruct (connect_matches_bind_path tasks ps jt t pr b i c o W H Hb Nb Hi Ht Hpr C NDt Ho Tg Ex) as [T0 _].
     contradiction.
@@ -1403,8 +1417,8 @@ Lemma invalid_inbound_fails tasks t c :
   In t tasks -> t_chans t = true -> In c (t_in t) ->
   i_target c <> [] -> is_explicit (i_target c) = false -> configure tasks = None.
 Proof.
-  intros Ht C Hc T Ex. unfold configure. destruct (env_bindmap tasks) as [bm|]; [|reflexivity].
-  apply (all_props_none bm tasks t Ht). unfold task_props. rewrite C.
+  intros Ht C Hc T Ex. destruct (env_bindmap tasks) as [bm|] eqn:B; [|unfold configure; rewrite B; reflexivity].
+  apply (configure_props_none tasks bm B). apply (all_props_none bm tasks t Ht). unfold task_props. rewrite C.
   rewrite (in_writes_none (t_local t) (t_in t) c Hc); [reflexivity|].
   unfold inbound_props. rewrite Ex. apply nonempty_true in T. rewrite T. reflexivity.
 Qed.
@@ -1414,8 +1428,8 @@ Lemma unmatched_fails tasks t o :
   (forall b c, In b tasks -> In c (t_in b) -> ~ names_target b c (o_target o)) ->
   configure tasks = None.
 Proof.
-  intros Ht C Ho Ex Hn. unfold configure. destruct (env_bindmap tasks) as [bm|] eqn:B; [|reflexivity].
-  apply (all_props_none bm tasks t Ht). unfold task_props. rewrite C.
+  intros Ht C Ho Ex Hn. destruct (env_bindmap tasks) as [bm|] eqn:B; [|unfold configure; rewrite B; reflexivity].
+  apply (configure_props_none tasks bm B). apply (all_props_none bm tasks t Ht). unfold task_props. rewrite C.
   rewrite (out_writes_none bm (t_out t) o Ho); [destruct (in_writes (t_local t) (t_in t)); reflexivity|].
   unfold outbound_props. rewrite Ex.
   unfold env_bindmap in B. rewrite (env_from_other _ _ _ (o_target o) B); [reflexivity|].
@@ -1430,8 +1444,8 @@ Lemma alias_two_tasks_rejected tasks j1 j2 b1 b2 k e1 e2 :
   ~ (exists p tr, e1 = Ipc p tr /\ e2 = Ipc p tr) ->
   configure tasks = None.
 Proof.
-  intros Hp Hh H1 H2 Ne A I1 I2 Nx. unfold configure.
-  destruct (env_bindmap tasks) as [bm|] eqn:B; [|reflexivity]. exfalso. apply Nx.
+  intros Hp Hh H1 H2 Ne A I1 I2 Nx.
+  destruct (env_bindmap tasks) as [bm|] eqn:B; [|unfold configure; rewrite B; reflexivity]. exfalso. apply Nx.
   destruct (Nat.lt_total j1 j2) as [Lt|[Eq|Gt]]; [|contradiction|].
   - destruct (nth_error_two _ _ _ _ _ H1 H2 Lt) as (pre & mid & post & E). subst tasks.
     apply (env_from_alias_two pre b1 mid b2 post bm k e1 e2 Hp Hh B A I1 I2).
@@ -1468,7 +1482,7 @@ Proof.
     intro X. apply Ne. congruence.
   - destruct (configure tasks) as [ps|] eqn:Cf; [|reflexivity]. exfalso.
     assert (B : exists bm, env_bindmap tasks = Some bm).
-    { unfold configure in Cf. destruct (env_bindmap tasks) as [bm|]; [exists bm; reflexivity|discriminate]. }
+    { destruct (configure_some _ _ Cf) as (bm0 & B0 & _). exists bm0. exact B0. }
     destruct B as (bm & B).
     assert (G2 : i_global c2 <> []) by congruence.
     assert (L : forall b i c, In b tasks -> nth_error (t_in b) i = Some c -> i_global c <> [] -> i_target c = [] ->
@@ -1641,10 +1655,14 @@ Lemma fails_only_for_cause tasks :
                i_target c <> [] /\ is_explicit (i_target c) = false) \/
   (exists t, In t tasks /\ alias_dup (t_in t) = true) \/
   (exists j1 j2 b1 b2 k e1 e2, (j1 < j2)%nat /\ nth_error tasks j1 = Some b1 /\ nth_error tasks j2 = Some b2 /\
-               is_alias_key k = true /\ In (k, e1) (t_local b1) /\ In (k, e2) (t_local b2)).
+               is_alias_key k = true /\ In (k, e1) (t_local b1) /\ In (k, e2) (t_local b2)) \/
+  (exists bm t, env_bindmap tasks = Some bm /\ In t tasks /\ cross_ipc tasks bm t = true).
 Proof.
   intros Hp H. unfold configure in H. destruct (env_bindmap tasks) as [bm|] eqn:B.
-  - destruct (all_props_none_inv _ _ H) as (t & Ht & P). unfold task_props in P.
+  - destruct (existsb (cross_ipc tasks bm) tasks) eqn:X.
+    { right. right. right. right. apply existsb_exists in X. destruct X as (t & Ht & X).
+      exists bm, t. repeat split; assumption. }
+    destruct (all_props_none_inv _ _ H) as (t & Ht & P). unfold task_props in P.
     destruct (t_chans t) eqn:C; [|discriminate].
     destruct (in_writes (t_local t) (t_in t)) as [wi|] eqn:Wi.
     + left. destruct (out_writes bm (t_out t)) as [w|] eqn:W; [discriminate|].
@@ -1661,6 +1679,89 @@ Proof.
         destruct (assoc (i_name c) (t_local t)) as [ep|] eqn:L; [discriminate|].
         revert L. unfold t_local, local_bindmap. apply local_from_present.
         right. exists c. split; [exact Hc|]. split; [exact Ne|]. left. reflexivity.
-  - right. right. destruct (env_from_none tasks [] [] Hp) as [X|X]; [|exact B|left; exact X|right; exact X].
+  - right. right. destruct (env_from_none tasks [] [] Hp) as [X|X]; [|exact B|left; exact X|right; left; exact X].
     intros k _ P. exfalso. apply P. reflexivity.
+Qed.
+
+(* ====================================================================================== *)
+(* an IPC endpoint is reachable on the binder's host only                                  *)
+(* ====================================================================================== *)
+Lemma writes_keyb_spec t k : writes_keyb t k = true <-> writes_key t k.
+Proof.
+  unfold writes_keyb, writes_key. rewrite existsb_exists. split.
+  - intros ([n ep] & Hi & E). apply str_eqb_spec in E. exists n, ep. split; assumption.
+  - intros (n & ep & Hi & E). exists (n, ep). split; [exact Hi|]. cbn [fst]. rewrite E. apply str_eqb_refl.
+Qed.
+
+(* under [wf_env] a "path:name" key has one writer *)
+Lemma path_key_writer_unique tasks b t k :
+  wf_env tasks -> In b tasks -> In t tasks -> is_alias_key k = false ->
+  writes_key b k -> writes_key t k -> t = b.
+Proof.
+  intros W Hb Ht A (n & ep & Hi & E) (n' & ep' & Hi' & E').
+  assert (NA : forall x m, In x tasks -> bind_key (t_path x) m = k -> bind_key (t_path x) m = t_path x ++ s_colon ++ m).
+  { intros x m Hx Em. destruct (is_alias_key m) eqn:Am; [|apply bind_key_path, Am].
+    rewrite bind_key_alias in Em by exact Am. congruence. }
+  rewrite (NA b n Hb E) in E. rewrite (NA t n' Ht E') in E'. destruct W as [ND Wf].
+  destruct (key_inj _ _ _ _ (proj1 (proj2 (Wf t Ht))) (proj1 (proj2 (Wf b Hb))) (eq_trans E' (eq_sym E))) as [Ep _].
+  apply (NoDup_map_In_eq t_path tasks); assumption.
+Qed.
+
+Lemma key_host_path tasks b k :
+  wf_env tasks -> In b tasks -> is_alias_key k = false -> writes_key b k ->
+  key_host tasks k = Some (t_host b).
+Proof.
+  intros W Hb A Wk. unfold key_host. rewrite A.
+  destruct (find (fun t => writes_keyb t k) (rev tasks)) as [t|] eqn:F.
+  - apply find_some in F. destruct F as [Ht Wt]. apply in_rev in Ht. apply writes_keyb_spec in Wt.
+    rewrite (path_key_writer_unique tasks b t k W Hb Ht A Wk Wt). reflexivity.
+  - exfalso. apply in_rev in Hb. pose proof (find_none _ _ F b Hb) as X. cbv beta in X.
+    apply writes_keyb_spec in Wk. congruence.
+Qed.
+
+Lemma name_entry_writes b i c :
+  names_ok b -> nth_error (t_in b) i = Some c -> i_target c = [] ->
+  In (i_name c, mk_ep c (t_alloc b i)) (t_local b) /\
+  writes_key b (t_path b ++ s_colon ++ i_name c) /\ is_alias_key (i_name c) = false.
+Proof.
+  intros [ND PL] Hc T.
+  assert (A : is_alias_key (i_name c) = false) by (apply PL, (nth_error_In _ _ Hc)).
+  assert (L : In (i_name c, mk_ep c (t_alloc b i)) (t_local b)).
+  { apply local_In_assoc. unfold t_local. apply local_bindmap_name; [|exact PL|exact Hc|exact T].
+    unfold names_of in ND. apply nodup_app_elim in ND. apply ND. }
+  split; [exact L|]. split; [|exact A]. exists (i_name c), (mk_ep c (t_alloc b i)).
+  split; [exact L|apply bind_key_path, A].
+Qed.
+
+(* a peer on another host that names an IPC-addressed channel fails the configuration *)
+Lemma ipc_cross_host_rejected tasks b i c t o :
+  wf_env tasks -> In b tasks -> names_ok b -> nth_error (t_in b) i = Some c ->
+  i_target c = [] -> i_ipc c = true ->
+  In t tasks -> t_chans t = true -> In o (t_out t) -> o_target o = t_path b ++ s_colon ++ i_name c ->
+  t_host t <> t_host b -> configure tasks = None.
+Proof.
+  intros W Hb Nb Hc T Ip Ht C Ho Tg Hn.
+  destruct (name_entry_writes b i c Nb Hc T) as (L & Wk & A).
+  unfold configure. destruct (env_bindmap tasks) as [bm|] eqn:B; [|reflexivity].
+  assert (X : existsb (cross_ipc tasks bm) tasks = true); [|rewrite X; reflexivity].
+  apply existsb_exists. exists t. split; [exact Ht|]. unfold cross_ipc. rewrite C. cbn [andb].
+  apply existsb_exists. exists o. split; [exact Ho|]. rewrite Tg.
+  apply local_In_assoc in L. rewrite (env_bindmap_path _ _ _ _ _ W B Hb L A).
+  unfold mk_ep. rewrite Ip. cbn [to_target is_ipc_ep andb].
+  rewrite (key_host_path tasks b _ W Hb (path_key_not_alias _ _ (wf_env_path_ok _ _ W Hb)) Wk).
+  cbn [option_eqb]. destruct (str_eqb (t_host b) (t_host t)) eqn:E; [|reflexivity].
+  apply str_eqb_spec in E. congruence.
+Qed.
+
+(* in an accepted configuration such a peer runs on the binder's host *)
+Lemma ipc_same_host tasks ps b i c t o :
+  wf_env tasks -> configure tasks = Some ps -> In b tasks -> names_ok b -> nth_error (t_in b) i = Some c ->
+  i_target c = [] -> i_ipc c = true ->
+  In t tasks -> t_chans t = true -> In o (t_out t) -> o_target o = t_path b ++ s_colon ++ i_name c ->
+  t_host t = t_host b.
+Proof.
+  intros W Cf Hb Nb Hc T Ip Ht C Ho Tg.
+  destruct (str_eqb (t_host t) (t_host b)) eqn:E; [apply str_eqb_spec, E|].
+  apply str_eqb_false in E.
+  rewrite (ipc_cross_host_rejected tasks b i c t o W Hb Nb Hc T Ip Ht C Ho Tg E) in Cf. discriminate.
 Qed.
